@@ -164,11 +164,10 @@ def run(ctx, chk, tier="quick"):
     # the two masks passed to get_true_interval_masks
     gm_calls = [c for c in ast.walk(ms.node) if isinstance(c, ast.Call) and ctx.cg.resolve_callee(ms, c.func) == ["classify.get_true_interval_masks"]]
     defs = {}
-    for c in gm_calls:
-        if c.args and isinstance(c.args[0], ast.Name):
-            v = msflow.def_value(c.args[0])
+    for k_, c in enumerate(gm_calls):
+        if c.args:
             ex = msflow.expand(c.args[0], keep={rain_p, head_p, rthr_p, jthr_p})
-            defs[c.args[0].id] = (c, ex)
+            defs[c.args[0].id if isinstance(c.args[0], ast.Name) else "mask#%d" % k_] = (c, ex)
     want = {
         "storm": ("%s > %s" % (rain_p, rthr_p), "rain intensity > storm threshold"),
         "jump": ("diffop(%s) > %s" % (head_p, jthr_p), "level increment > jump threshold"),
@@ -536,16 +535,9 @@ def _readers(ctx, chk):
                 lt, ut = ast.unparse(lo), ast.unparse(up)
                 if zs and zt and zs in lt and zt in ut:
                     def idx_of(e, name):
-                        # np.argwhere(epoch == NAME)[0, 0] (+ c)
-                        off = 0
-                        core = e
-                        if isinstance(core, ast.BinOp) and isinstance(core.op, (ast.Add, ast.Sub)) and isinstance(core.right, ast.Constant):
-                            off = core.right.value if isinstance(core.op, ast.Add) else -core.right.value
-                            core = core.left
-                        txt = ast.unparse(core)
-                        if "== %s" % name in txt and ("argwhere" in txt or "nonzero" in txt or "searchsorted" in txt or "where" in txt):
-                            return off
-                        return None
+                        # np.argwhere(epoch == NAME)[0, 0] (+ c), either orientation
+                        from ..idioms import lookup_key_is
+                        return lookup_key_is(e, name)
                     a, b_ = idx_of(lo, zs), idx_of(up, zt)
                     desc = "levels[index(start)%+d : index(thru)%+d]" % (a if a is not None else 99, b_ if b_ is not None else 99)
                     ok = a == 0 and b_ == 1
